@@ -226,6 +226,13 @@ func (p *Parser) ParseExpressionWithPrecedence(precedence int) ast.Expression {
 
 func (p *Parser) ParseRemainingExpressionWithPrecedence(left ast.Expression, precedence int) ast.Expression {
 	for p.PeekToken.Type != token.SEMICOLON && precedence < p.peekPrecedence() {
+		// restricted production: a line break before ++/-- ends the expression (a⏎++b is `a; ++b`)
+		if p.PeekToken.AfterNewline {
+			switch p.PeekToken.Type {
+			case token.INCREMENT, token.DECREMENT:
+				return left
+			}
+		}
 		// Smart semicolon insertion: prevent LPAREN and LBRACKET after newline from continuing expression
 		// https://eslint.org/docs/latest/rules/no-unexpected-multiline
 		if p.smartSemicolons && p.PeekToken.AfterNewline {
